@@ -230,8 +230,16 @@ def run_sched(case, V, hooks, distinct):
             if kind != "value" or is_plain(val):
                 break
         expected = (kind, copy.deepcopy(val) if kind == "value" else val)
-        basic.OUTCOME_BOX[0] = (kind, val)
-        inv = cell.task(counter["n"])
+        retrying = counter["n"] % 3 == 0
+        if retrying:
+            # first attempt fails with a retriable error, the second one gives the final outcome; two workers
+            basic.ATTEMPTS.clear()
+            basic.OUTCOME_BOX[0] = ("attempts", [("exc", ConnectionError("transient", counter["n"])), (kind, val)])
+            rtask = app.task(basic.scripted_outcome, max_retries=1, retry_for=(ConnectionError,))
+            inv = rtask(counter["n"])
+        else:
+            basic.OUTCOME_BOX[0] = (kind, val)
+            inv = cell.task(counter["n"])
         flush_history(app)
         localV, localH = [], Counter()
         wit_extra = {"serializer": dom, "backend": backend, "threshold": thr}
@@ -260,6 +268,22 @@ def run_sched(case, V, hooks, distinct):
             finally:
                 clear_thread_ctx(app)
         sc.spawn("worker", worker)
+        if retrying:
+            ctx2 = runner_ctx("W", "worker-2")
+
+            def worker2():
+                set_thread_ctx(app, ctx2)
+                try:
+                    for _ in range(3):
+                        for w in list(app.orchestrator.get_invocations_to_run(1, ctx2)):
+                            try:
+                                w.run(ctx2)
+                            except Exception:
+                                pass
+                        sc.yield_point("probe:worker2-loop")
+                finally:
+                    clear_thread_ctx(app)
+            sc.spawn("worker2", worker2)
         for r in range(case["readers"]):
             def reader(r=r):
                 rinv = app.state_backend.get_invocation(inv.invocation_id)  # a client's own handle
@@ -272,6 +296,19 @@ def run_sched(case, V, hooks, distinct):
 
         def fin():
             pr.uninstall()
+            if retrying:
+                # drain: whoever is left finishes the retry
+                set_thread_ctx(app, cell.ctx)
+                try:
+                    for _ in range(3):
+                        for w in list(app.orchestrator.get_invocations_to_run(1, cell.ctx)):
+                            try:
+                                w.run(cell.ctx)
+                            except Exception:
+                                pass
+                finally:
+                    clear_thread_ctx(app)
+                totals["retry_scenarios"] += 1
             st = read_and_judge(app, inv, expected, localV, localH, "client-after", wit_extra)
             totals.update(localH)
             totals["kind_" + kind] += 1
@@ -280,7 +317,7 @@ def run_sched(case, V, hooks, distinct):
 
     shims = SH.Shims() if backend == "mem" else SH.Shims(threading_modules=["pynenc.state_backend.base_state_backend"], time_modules=["pynenc.util.sqlite_utils"])
     lines = (linemon.MEM_ORCH[:3] + linemon.MEM_BROKER + ["pynenc.orchestrator.base_orchestrator:BaseOrchestrator.set_invocation_result",
-             "pynenc.orchestrator.base_orchestrator:BaseOrchestrator.set_invocation_exception", "pynenc.invocation.dist_invocation:DistributedInvocation.get_final_result",
+             "pynenc.orchestrator.base_orchestrator:BaseOrchestrator.set_invocation_exception", "pynenc.orchestrator.base_orchestrator:BaseOrchestrator.set_invocation_retry", "pynenc.invocation.dist_invocation:DistributedInvocation.get_final_result",
              "pynenc.state_backend.base_state_backend:BaseStateBackend.set_result", "pynenc.state_backend.base_state_backend:BaseStateBackend.get_result"]) if backend == "mem" else None
     try:
         res = S.explore(scenario, strategy=case["strategy"], max_preemptions=case.get("p", 2), n=case.get("count", 30), seed=case["seed"],
